@@ -302,7 +302,9 @@ func Main() {
 		}
 		im, mo, sp := normPanic(impl), normPanic(model), normPanic(spec)
 		eqM := im == mo
-		eqS := spec == "-" || im == sp
+		// a panic of the implementation is never acceptable (C10), whether or not the spec speaks about this input and
+		// whether or not the model faults too
+		eqS := (spec == "-" || im == sp) && !strings.HasPrefix(impl, "PANIC") && !strings.HasPrefix(impl, "INPUT-MODIFIED:") && !strings.HasPrefix(impl, "RESOURCE:")
 		if eqM {
 			st.ImplEqModel++
 		}
